@@ -95,117 +95,120 @@ func frameMain(args []string) int {
 	saved := nitro.DiskBlockSize
 	defer func() { nitro.DiskBlockSize = saved }()
 	for i := 0; i < *n; i++ {
-		maxLen := []int{3, 8, 40, 300, 300}[rnd.Intn(5)]
-		nitems := rnd.Intn(6)
-		if *big && i%10 == 0 {
-			maxLen = 70000
-			nitems = 1 + rnd.Intn(2)
-		}
-		nitro.DiskBlockSize = []int{16, 64, 4096, 512 * 1024}[rnd.Intn(4)]
-		var items [][]byte
-		for j := 0; j < nitems; j++ {
-			items = append(items, genItem(rnd, maxLen))
-		}
-		if items == nil {
-			items = [][]byte{}
-		}
-		ver := 1
-		if rnd.Intn(4) == 0 {
-			ver = 0 // the old format has a 2-byte length: items up to 65535 bytes
-			for j := range items {
-				if len(items[j]) > 65535 {
-					items[j] = items[j][:65535]
+		i := i
+		guarded(t, func() {
+			maxLen := []int{3, 8, 40, 300, 300}[rnd.Intn(5)]
+			nitems := rnd.Intn(6)
+			if *big && i%10 == 0 {
+				maxLen = 70000
+				nitems = 1 + rnd.Intn(2)
+			}
+			nitro.DiskBlockSize = []int{16, 64, 4096, 512 * 1024}[rnd.Intn(4)]
+			var items [][]byte
+			for j := 0; j < nitems; j++ {
+				items = append(items, genItem(rnd, maxLen))
+			}
+			if items == nil {
+				items = [][]byte{}
+			}
+			ver := 1
+			if rnd.Intn(4) == 0 {
+				ver = 0 // the old format has a 2-byte length: items up to 65535 bytes
+				for j := range items {
+					if len(items[j]) > 65535 {
+						items[j] = items[j][:65535]
+					}
 				}
 			}
-		}
-		e := tr.Ev{"e": "Stream", "ver": ver, "items": intss(items), "blk": nitro.DiskBlockSize}
-		os.Remove(path)
-		if ver == 1 {
-			w := db.VerifNewFileWriter()
-			if err := w.Open(path); err != nil {
-				die("open: %v", err)
-			}
-			werr := ""
-			for _, it := range items {
-				if err := w.WriteItem(db.VerifNewItem(it)); err != nil {
+			e := tr.Ev{"e": "Stream", "ver": ver, "items": intss(items), "blk": nitro.DiskBlockSize}
+			os.Remove(path)
+			if ver == 1 {
+				w := db.VerifNewFileWriter()
+				if err := w.Open(path); err != nil {
+					die("open: %v", err)
+				}
+				werr := ""
+				for _, it := range items {
+					if err := w.WriteItem(db.VerifNewItem(it)); err != nil {
+						werr = err.Error()
+					}
+				}
+				e["wsum"] = w.Checksum() // as StoreToDisk reads it: before Close
+				if err := w.Close(); err != nil {
 					werr = err.Error()
 				}
+				e["wsumclosed"] = w.Checksum()
+				e["werr"] = werr
+			} else {
+				// v0 layout: 2-byte big-endian length, item; terminator = 2 zero bytes (only items < 65536 bytes)
+				var buf bytes.Buffer
+				for _, it := range items {
+					buf.Write([]byte{byte(len(it) >> 8), byte(len(it))})
+					buf.Write(it)
+				}
+				buf.Write([]byte{0, 0})
+				if err := os.WriteFile(path, buf.Bytes(), 0644); err != nil {
+					die("write: %v", err)
+				}
+				e["wsum"] = 0
+				e["werr"] = ""
 			}
-			e["wsum"] = w.Checksum() // as StoreToDisk reads it: before Close
-			if err := w.Close(); err != nil {
-				werr = err.Error()
-			}
-			e["wsumclosed"] = w.Checksum()
-			e["werr"] = werr
-		} else {
-			// v0 layout: 2-byte big-endian length, item; terminator = 2 zero bytes (only items < 65536 bytes)
-			var buf bytes.Buffer
-			for _, it := range items {
-				buf.Write([]byte{byte(len(it) >> 8), byte(len(it))})
-				buf.Write(it)
-			}
-			buf.Write([]byte{0, 0})
-			if err := os.WriteFile(path, buf.Bytes(), 0644); err != nil {
-				die("write: %v", err)
-			}
-			e["wsum"] = 0
-			e["werr"] = ""
-		}
-		fb, err := os.ReadFile(path)
-		if err != nil {
-			die("read: %v", err)
-		}
-		e["file"] = ints(fb)
-		r := db.VerifNewFileReader(ver)
-		if err := r.Open(path); err != nil {
-			die("ropen: %v", err)
-		}
-		var dec [][]byte
-		eos := false
-		rerr := ""
-		for k := 0; k < len(items)+3; k++ {
-			itm, err := r.ReadItem()
+			fb, err := os.ReadFile(path)
 			if err != nil {
-				rerr = err.Error()
-				break
+				die("read: %v", err)
 			}
-			if itm == nil {
-				eos = true
-				break
+			e["file"] = ints(fb)
+			r := db.VerifNewFileReader(ver)
+			if err := r.Open(path); err != nil {
+				die("ropen: %v", err)
 			}
-			dec = append(dec, append([]byte(nil), itm.Bytes()...))
-		}
-		if dec == nil {
-			dec = [][]byte{}
-		}
-		e["decoded"] = intss(dec)
-		e["eos"] = eos
-		e["rerr"] = rerr
-		e["rsum"] = r.Checksum()
-		r.Close()
-		t.Emit(e)
+			var dec [][]byte
+			eos := false
+			rerr := ""
+			for k := 0; k < len(items)+3; k++ {
+				itm, err := r.ReadItem()
+				if err != nil {
+					rerr = err.Error()
+					break
+				}
+				if itm == nil {
+					eos = true
+					break
+				}
+				dec = append(dec, append([]byte(nil), itm.Bytes()...))
+			}
+			if dec == nil {
+				dec = [][]byte{}
+			}
+			e["decoded"] = intss(dec)
+			e["eos"] = eos
+			e["rerr"] = rerr
+			e["rsum"] = r.Checksum()
+			r.Close()
+			t.Emit(e)
 
-		// KV helpers
-		k := genItem(rnd, 12)
-		if rnd.Intn(6) == 0 {
-			k = []byte{}
-		}
-		v := genItem(rnd, 12)
-		if rnd.Intn(6) == 0 {
-			v = []byte{}
-		}
-		enc := nitro.KVToBytes(k, v)
-		dk, dv := nitro.KVFromBytes(enc)
-		t.Emit(tr.Ev{"e": "KV", "k": ints(k), "v": ints(v), "enc": ints(enc), "dk": ints(dk), "dv": ints(dv)})
-		k2 := genItem(rnd, 4)
-		if rnd.Intn(3) == 0 {
-			k2 = append([]byte(nil), k...)
-			if len(k2) > 0 && rnd.Intn(2) == 0 {
-				k2 = k2[:len(k2)-1]
+			// KV helpers
+			k := genItem(rnd, 12)
+			if rnd.Intn(6) == 0 {
+				k = []byte{}
 			}
-		}
-		a, b := nitro.KVToBytes(k, v), nitro.KVToBytes(k2, genItem(rnd, 3))
-		t.Emit(tr.Ev{"e": "Cmp", "a": ints(a), "b": ints(b), "r": sign(nitro.CompareKV(a, b)), "rr": sign(nitro.CompareKV(b, a))})
+			v := genItem(rnd, 12)
+			if rnd.Intn(6) == 0 {
+				v = []byte{}
+			}
+			enc := nitro.KVToBytes(k, v)
+			dk, dv := nitro.KVFromBytes(enc)
+			t.Emit(tr.Ev{"e": "KV", "k": ints(k), "v": ints(v), "enc": ints(enc), "dk": ints(dk), "dv": ints(dv)})
+			k2 := genItem(rnd, 4)
+			if rnd.Intn(3) == 0 {
+				k2 = append([]byte(nil), k...)
+				if len(k2) > 0 && rnd.Intn(2) == 0 {
+					k2 = k2[:len(k2)-1]
+				}
+			}
+			a, b := nitro.KVToBytes(k, v), nitro.KVToBytes(k2, genItem(rnd, 3))
+			t.Emit(tr.Ev{"e": "Cmp", "a": ints(a), "b": ints(b), "r": sign(nitro.CompareKV(a, b)), "rr": sign(nitro.CompareKV(b, a))})
+		})
 	}
 	os.Remove(path)
 	fmt.Printf("{\"scenarios\":%d,\"events\":%d}\n", *n, t.Count())
